@@ -11,7 +11,7 @@ import sys
 sys.path.insert(0, os.path.dirname(os.path.dirname(os.path.abspath(__file__))))
 
 from mc import runner, VERIF  # noqa: E402
-from mc.driver import MachineDriver, r6  # noqa: E402
+from mc.driver import MachineDriver, r6, simple_state  # noqa: E402
 from mc.explore import bfs  # noqa: E402
 
 EPS = 1e-6
@@ -244,7 +244,9 @@ class BlockDriver(MachineDriver):
         now = self.loop.time()
         return (repr(self.ref_value), self.ref_enabled, self.ref_completed,
                 None if self.window_until is None else r6(self.window_until - now),
-                None if self.timeout_at is None else r6(self.timeout_at - now), self.rel_timers())
+                None if self.timeout_at is None else r6(self.timeout_at - now), self.rel_timers(),
+                simple_state(self.dev, exclude=("delay", "_state"), now=now),
+                simple_state(self.dev._state) if self.dev._state is not None else None)
 
     def observe(self):
         return {"device": self.name, "config": self.cfg, "events": list(self.evlog),
